@@ -264,7 +264,15 @@ func newNode(dir string, cfg *config.Configuration, minerAddr string, v2active u
 		case events.ETBlockDisconnected:
 			if b, ok := e.Data.(*types.Block); ok {
 				n.discon = append(n.discon, b)
-				if n.lihRef > 0 && b.Height <= n.lihRef {
+				undo := false
+				for _, cb := range n.connected {
+					undo = undo || cb.Hash() == b.Hash()
+				}
+				// (undo: a block attached earlier in this very delivery is taken
+				// off again - the branch turned out invalid and the node returns
+				// to its previous chain; heights "recorded" while walking an
+				// invalid branch bind nothing)
+				if !undo && n.lihRef > 0 && b.Height <= n.lihRef {
 					n.lihCrossed = append(n.lihCrossed, fmt.Sprintf("block at height %d detached while the last irreversible height was %d", b.Height, n.lihRef))
 				}
 				for _, tx := range b.Transactions[1:] {
